@@ -19,6 +19,8 @@
   All theorems quantify over ALL strings, indices, characters, texts and predicate oracles.
 -/
 import BumpProof.Lemmas.StrOps
+import BumpProof.Lemmas.StrRetain
+import BumpProof.Lemmas.StrCstr
 
 namespace C09
 open Str
@@ -36,6 +38,10 @@ theorem decode_sound (l : Bytes) (cs : List Char) (h : decode l = some cs) : l =
 
 /-- the executable validity test used by the driver decides `Valid` -/
 theorem validUtf8_iff (l : Bytes) : validUtf8 l = true ↔ Valid l := Str.validUtf8_iff l
+
+/-- `Valid` (the encoding, by Lean core's `String.utf8EncodeChar`, of some character sequence) is
+    exactly Lean core's `ByteArray.IsValidUTF8`, the invariant of core's `String` -/
+theorem valid_iff_core (l : Bytes) : Valid l ↔ ByteArray.IsValidUTF8 l.toByteArray := Str.valid_iff_core l
 
 /-- concatenating valid strings gives a valid string -/
 theorem valid_append (a b : Bytes) (ha : Valid a) (hb : Valid b) : Valid (a ++ b) := ha.append hb
@@ -229,5 +235,303 @@ theorem remove_valid (s : State) (idx : Nat) (h : WF s) : AllWF (remove s idx) :
       rw [hr]; exact hh.wf
 
 example : remove (State.ofBytes (encode ['a', 'é', 'b'])) 1 = .ok 'é' { buf := [0x61, 0x62, 0xA9, 0x62], len := 2 } := by decide
+
+/-! ## retain — every predicate oracle, including the executions in which the predicate panics -/
+
+/-- for EVERY oracle (any mixture of `keep`/`drop`, a panic at any call): `retain` returns `ok` with
+    the kept characters, or — the predicate panicked — unwinds with exactly the characters kept before
+    the panic (the `SetLenOnDrop` guard); the oracle list is consumed one outcome per character in the
+    original order (`retainSpec`) -/
+theorem retain_refines (s : State) (cs : List Char) (oracle : List Outcome) (h : Holds s cs) :
+    ∃ s', retain s oracle = (if (retainSpec cs oracle).2 then Res.panic s' else Res.ok () s') ∧
+      Holds s' (retainSpec cs oracle).1 := by
+  obtain ⟨s', hr, hh, _⟩ := retain_spec s cs oracle h
+  exact ⟨s', hr, hh⟩
+
+/-- `retain` panics iff the predicate does -/
+theorem retain_panics_iff (s : State) (cs : List Char) (oracle : List Outcome) (h : Holds s cs) :
+    (retain s oracle).isPanic = true ↔ (retainSpec cs oracle).2 = true := by
+  obtain ⟨s', hr, _⟩ := retain_spec s cs oracle h
+  rw [hr]; split <;> simp_all [Res.isPanic]
+
+/-- valid UTF-8 after `retain`, ALSO when the predicate panicked -/
+theorem retain_valid (s : State) (oracle : List Outcome) (h : WF s) : AllWF (retain s oracle) := by
+  obtain ⟨cs, hc⟩ := (wf_iff s).1 h
+  obtain ⟨s', hr, hh, _⟩ := retain_spec s cs oracle hc
+  rw [hr]; split <;> exact hh.wf
+
+/-- without a panicking outcome `retain` is `List.filter` by the oracle -/
+theorem retainSpec_no_panic (cs : List Char) (keep : List Bool) (hk : keep.length = cs.length) :
+    retainSpec cs (keep.map fun b => if b then Outcome.keep else Outcome.drop) =
+      (((cs.zip keep).filter (·.2)).map (·.1), false) := by
+  induction cs generalizing keep with
+  | nil => rfl
+  | cons c cs ih =>
+    cases keep with
+    | nil => simp at hk
+    | cons b bs =>
+      cases b with
+      | true =>
+        rw [List.map_cons, retainSpec_keep _ _ _ (by rfl)]
+        simp only [List.tail_cons, ih bs (by simpa using hk)]
+        simp
+      | false =>
+        rw [List.map_cons, retainSpec_drop _ _ _ (by rfl)]
+        simp only [List.tail_cons, ih bs (by simpa using hk)]
+        simp
+
+example : retainSpec ['a', 'é', 'b'] [.keep, .drop, .panic] = (['a'], true) := by decide
+example : retain (State.ofBytes (encode ['a', 'é', 'b'])) [.drop, .keep, .panic] =
+    .panic { buf := [0xC3, 0xA9, 0xA9, 0x62], len := 2 } := by decide
+
+/-! ## drain, replace_range, extend_from_within -/
+
+/-- range resolution (`slice::range`): the explicit form `start..end` -/
+theorem sliceRange_explicit (a b len : Nat) :
+    sliceRange (.incl a) (.excl b) len = if a ≤ b ∧ b ≤ len then some (a, b) else none :=
+  sliceRange_incl_excl a b len
+
+/-- a resolved range is ordered and in bounds -/
+theorem sliceRange_bounds (sb eb : Bound) (len a b : Nat) (h : sliceRange sb eb len = some (a, b)) :
+    a ≤ b ∧ b ≤ len := sliceRange_some h
+
+/-- `drain(range)` over the characters `cs2` (yielding the first `k` of them before the drop)
+    removes exactly `cs2` -/
+theorem drain_refines (s : State) (sb eb : Bound) (k a b : Nat) (cs1 cs2 cs3 : List Char)
+    (h : Holds s (cs1 ++ cs2 ++ cs3)) (hr : sliceRange sb eb s.len = some (a, b))
+    (ha : (encode cs1).length = a) (hb : (encode (cs1 ++ cs2)).length = b) :
+    ∃ s', drain s sb eb k = .ok (cs2.take k) s' ∧ Holds s' (cs1 ++ cs3) := by
+  obtain ⟨s', hd, hh, _⟩ := drain_ok s sb eb k a b cs1 cs2 cs3 h hr ha hb
+  exact ⟨s', hd, hh⟩
+
+/-- the panic condition shared by the range operations: the range does not resolve (bound
+    overflow, start > end, end > len) or one of its ends is not on a character boundary -/
+def RangeBad (cs : List Char) (sb eb : Bound) (len : Nat) : Prop :=
+  sliceRange sb eb len = none ∨ ∃ a b, sliceRange sb eb len = some (a, b) ∧ (¬ CharPos cs a ∨ ¬ CharPos cs b)
+
+theorem rangeBad_or_split (cs : List Char) (sb eb : Bound) (len : Nat) :
+    RangeBad cs sb eb len ∨
+    ∃ a b cs1 cs2 cs3, sliceRange sb eb len = some (a, b) ∧ cs = cs1 ++ cs2 ++ cs3 ∧
+      (encode cs1).length = a ∧ (encode (cs1 ++ cs2)).length = b := by
+  cases hr : sliceRange sb eb len with
+  | none => exact Or.inl (Or.inl hr)
+  | some p =>
+    obtain ⟨a, b⟩ := p
+    by_cases ha : CharPos cs a
+    · by_cases hb : CharPos cs b
+      · obtain ⟨c1, c2, c3, he, h1, h2⟩ := charPos_split3 ha hb (sliceRange_some hr).1
+        exact Or.inr ⟨a, b, c1, c2, c3, rfl, he, h1, h2⟩
+      · exact Or.inl (Or.inr ⟨a, b, hr, Or.inr hb⟩)
+    · exact Or.inl (Or.inr ⟨a, b, hr, Or.inl ha⟩)
+
+theorem not_rangeBad_of_split {cs : List Char} {sb eb : Bound} {len a b : Nat} {cs1 cs2 cs3 : List Char}
+    (hr : sliceRange sb eb len = some (a, b)) (he : cs = cs1 ++ cs2 ++ cs3)
+    (ha : (encode cs1).length = a) (hb : (encode (cs1 ++ cs2)).length = b) : ¬ RangeBad cs sb eb len := by
+  rintro (hn | ⟨a', b', hr', hp⟩)
+  · rw [hn] at hr; simp at hr
+  · rw [hr] at hr'
+    simp only [Option.some.injEq, Prod.mk.injEq] at hr'
+    obtain ⟨rfl, rfl⟩ := hr'
+    rcases hp with hp | hp
+    · exact hp ⟨cs1, cs2 ++ cs3, by rw [he, List.append_assoc], ha⟩
+    · exact hp ⟨cs1 ++ cs2, cs3, he, hb⟩
+
+theorem drain_panics_iff (s : State) (sb eb : Bound) (k : Nat) (cs : List Char) (h : Holds s cs) :
+    (drain s sb eb k).isPanic = true ↔ RangeBad cs sb eb s.len := by
+  rcases rangeBad_or_split cs sb eb s.len with hbad | ⟨a, b, c1, c2, c3, hr, rfl, h1, h2⟩
+  · rw [drain_panic s sb eb k cs h hbad]; simp [Res.isPanic, hbad]
+  · obtain ⟨s', hd, _⟩ := drain_ok s sb eb k a b c1 c2 c3 h hr h1 h2
+    rw [hd]; simp only [Res.isPanic, Bool.false_eq_true, false_iff]; exact not_rangeBad_of_split hr rfl h1 h2
+
+theorem drain_valid (s : State) (sb eb : Bound) (k : Nat) (h : WF s) : AllWF (drain s sb eb k) := by
+  obtain ⟨cs, hc⟩ := (wf_iff s).1 h
+  rcases rangeBad_or_split cs sb eb s.len with hbad | ⟨a, b, c1, c2, c3, hr, rfl, h1, h2⟩
+  · rw [drain_panic s sb eb k cs hc hbad]; exact h
+  · obtain ⟨s', hd, hh, _⟩ := drain_ok s sb eb k a b c1 c2 c3 hc hr h1 h2
+    rw [hd]; exact hh.wf
+
+/-- `replace_range(range, t)` over the characters `cs2`: the string holds `cs1 ++ t ++ cs3`; a
+    fixed string fails (unchanged) iff the replacement is longer than the range by more than the
+    spare capacity -/
+theorem replace_range_refines (fixed : Bool) (s : State) (sb eb : Bound) (t : List Char) (a b : Nat)
+    (cs1 cs2 cs3 : List Char) (h : Holds s (cs1 ++ cs2 ++ cs3)) (hr : sliceRange sb eb s.len = some (a, b))
+    (ha : (encode cs1).length = a) (hb : (encode (cs1 ++ cs2)).length = b) :
+    GrowsToText fixed s ((encode t).length - (encode cs2).length) (replaceRange fixed s sb eb (encode t))
+      (cs1 ++ t ++ cs3) := replaceRange_ok fixed s sb eb t a b cs1 cs2 cs3 h hr ha hb
+
+theorem replace_range_panics_iff (fixed : Bool) (s : State) (sb eb : Bound) (t cs : List Char) (h : Holds s cs) :
+    (replaceRange fixed s sb eb (encode t)).isPanic = true ↔ RangeBad cs sb eb s.len := by
+  rcases rangeBad_or_split cs sb eb s.len with hbad | ⟨a, b, c1, c2, c3, hr, rfl, h1, h2⟩
+  · rw [replaceRange_panic fixed s sb eb _ cs h hbad]; simp [Res.isPanic, hbad]
+  · rw [(replaceRange_ok fixed s sb eb t a b c1 c2 c3 h hr h1 h2).not_panic]
+    simp only [Bool.false_eq_true, false_iff]; exact not_rangeBad_of_split hr rfl h1 h2
+
+theorem replace_range_valid (fixed : Bool) (s : State) (sb eb : Bound) (str : Bytes) (h : WF s) (hv : Valid str) :
+    AllWF (replaceRange fixed s sb eb str) := by
+  obtain ⟨cs, hc⟩ := (wf_iff s).1 h
+  obtain ⟨t, rfl⟩ := hv
+  rcases rangeBad_or_split cs sb eb s.len with hbad | ⟨a, b, c1, c2, c3, hr, rfl, h1, h2⟩
+  · rw [replaceRange_panic fixed s sb eb _ cs hc hbad]; exact h
+  · exact (replaceRange_ok fixed s sb eb t a b c1 c2 c3 hc hr h1 h2).allWF h
+
+/-- `extend_from_within(range)` appends a copy of the characters `cs2` -/
+theorem extend_from_within_refines (fixed : Bool) (s : State) (sb eb : Bound) (a b : Nat)
+    (cs1 cs2 cs3 : List Char) (h : Holds s (cs1 ++ cs2 ++ cs3)) (hr : sliceRange sb eb s.len = some (a, b))
+    (ha : (encode cs1).length = a) (hb : (encode (cs1 ++ cs2)).length = b) :
+    GrowsToText fixed s (encode cs2).length (extendFromWithin fixed s sb eb) (cs1 ++ cs2 ++ cs3 ++ cs2) :=
+  extendFromWithin_ok fixed s sb eb a b cs1 cs2 cs3 h hr ha hb
+
+theorem extend_from_within_panics_iff (fixed : Bool) (s : State) (sb eb : Bound) (cs : List Char) (h : Holds s cs) :
+    (extendFromWithin fixed s sb eb).isPanic = true ↔ RangeBad cs sb eb s.len := by
+  rcases rangeBad_or_split cs sb eb s.len with hbad | ⟨a, b, c1, c2, c3, hr, rfl, h1, h2⟩
+  · rw [extendFromWithin_panic fixed s sb eb cs h hbad]; simp [Res.isPanic, hbad]
+  · rw [(extendFromWithin_ok fixed s sb eb a b c1 c2 c3 h hr h1 h2).not_panic]
+    simp only [Bool.false_eq_true, false_iff]; exact not_rangeBad_of_split hr rfl h1 h2
+
+theorem extend_from_within_valid (fixed : Bool) (s : State) (sb eb : Bound) (h : WF s) :
+    AllWF (extendFromWithin fixed s sb eb) := by
+  obtain ⟨cs, hc⟩ := (wf_iff s).1 h
+  rcases rangeBad_or_split cs sb eb s.len with hbad | ⟨a, b, c1, c2, c3, hr, rfl, h1, h2⟩
+  · rw [extendFromWithin_panic fixed s sb eb cs hc hbad]; exact h
+  · exact (extendFromWithin_ok fixed s sb eb a b c1 c2 c3 hc hr h1 h2).allWF h
+
+example : RangeBad ['a', 'é'] (.incl 1) (.excl 2) 3 := Or.inr ⟨1, 2, by decide, Or.inr (by
+  rw [← Str.isCharBoundary_iff]; decide)⟩
+example : ¬ RangeBad ['a', 'é'] (.incl 1) (.excl 3) 3 :=
+  not_rangeBad_of_split (a := 1) (b := 3) (cs1 := ['a']) (cs2 := ['é']) (cs3 := []) (by decide) rfl (by decide) (by decide)
+
+/-! ## split_off (in place, range form) — `BumpBox<str>`, `FixedBumpString`, `BumpString` -/
+
+/-- for BOTH orders of the checks (`f = true`: after the fix, `f = false`: before): a range on
+    character boundaries is split off in place — the returned string holds `cs2`, the string keeps
+    `cs1 ++ cs3`, and the two capacities add up to the old capacity -/
+theorem splitOff_refines (f : Bool) (s : State) (sb eb : Bound) (a b : Nat) (cs1 cs2 cs3 : List Char)
+    (h : Holds s (cs1 ++ cs2 ++ cs3)) (hr : sliceRange sb eb s.len = some (a, b))
+    (ha : (encode cs1).length = a) (hb : (encode (cs1 ++ cs2)).length = b) :
+    ∃ o s', splitOff f s sb eb = .ok o s' ∧ Holds o cs2 ∧ Holds s' (cs1 ++ cs3) ∧ o.cap + s'.cap = s.cap :=
+  splitOff_ok f s sb eb a b cs1 cs2 cs3 h hr ha hb
+
+/-- the code after the fix (`Str.c09aFixed = true`, what the driver runs): `split_off` panics
+    exactly when the range does not resolve or an end is not on a character boundary -/
+theorem splitOff_panics_iff (s : State) (sb eb : Bound) (cs : List Char) (h : Holds s cs) :
+    (splitOff true s sb eb).isPanic = true ↔ RangeBad cs sb eb s.len := by
+  rcases rangeBad_or_split cs sb eb s.len with hbad | ⟨a, b, c1, c2, c3, hr, rfl, h1, h2⟩
+  · rcases hbad with hn | ⟨a, b, hr, hp⟩
+    · rw [splitOff_panic_range true s sb eb hn]; simp [Res.isPanic, RangeBad, hn]
+    · rw [splitOff_panic_fixed s sb eb a b cs h hr hp]
+      simp only [Res.isPanic, true_iff]; exact Or.inr ⟨a, b, hr, hp⟩
+  · obtain ⟨o, s', hs, _⟩ := splitOff_ok true s sb eb a b c1 c2 c3 h hr h1 h2
+    rw [hs]; simp only [Res.isPanic, Bool.false_eq_true, false_iff]; exact not_rangeBad_of_split hr rfl h1 h2
+
+/-- the full statement for the order BEFORE the fix (kept as the target; it is FALSE, see
+    `splitOff_c09a_target_false`) -/
+def splitOff_panics_iff_target : Prop :=
+  ∀ (s : State) (sb eb : Bound) (cs : List Char), Holds s cs →
+    ((splitOff false s sb eb).isPanic = true ↔ RangeBad cs sb eb s.len)
+
+/-- the order before the fix satisfies "panics iff" only with finding C09-a carved out: the range
+    must not be an empty range strictly inside the string -/
+theorem splitOff_panics_iff_partial (s : State) (sb eb : Bound) (cs : List Char) (h : Holds s cs)
+    (hne : ∀ a, sliceRange sb eb s.len = some (a, a) → a = 0 ∨ a = s.len) :
+    (splitOff false s sb eb).isPanic = true ↔ RangeBad cs sb eb s.len := by
+  rcases rangeBad_or_split cs sb eb s.len with hbad | ⟨a, b, c1, c2, c3, hr, rfl, h1, h2⟩
+  · rcases hbad with hn | ⟨a, b, hr, hp⟩
+    · rw [splitOff_panic_range false s sb eb hn]; simp [Res.isPanic, RangeBad, hn]
+    · have hne' : ¬ (a = b ∧ a ≠ 0 ∧ b ≠ s.len) := by
+        rintro ⟨rfl, h0, hl⟩
+        rcases hne a hr with h | h
+        · exact h0 h
+        · exact hl h
+      rw [splitOff_panic_asis s sb eb a b cs h hr hp hne']
+      simp only [Res.isPanic, true_iff]; exact Or.inr ⟨a, b, hr, hp⟩
+  · obtain ⟨o, s', hs, _⟩ := splitOff_ok false s sb eb a b c1 c2 c3 h hr h1 h2
+    rw [hs]; simp only [Res.isPanic, Bool.false_eq_true, false_iff]; exact not_rangeBad_of_split hr rfl h1 h2
+
+/-- witness of finding C09-a on the order before the fix: `"aé".split_off(2..2)` — index 2 is inside
+    `é` — returned the empty string and left the string alone instead of panicking -/
+theorem splitOff_c09a_witness :
+    splitOff false (State.ofBytes (encode ['a', 'é'])) (.incl 2) (.excl 2) =
+        .ok { buf := [], len := 0 } (State.ofBytes (encode ['a', 'é'])) ∧
+      RangeBad ['a', 'é'] (.incl 2) (.excl 2) 3 ∧
+      (splitOff true (State.ofBytes (encode ['a', 'é'])) (.incl 2) (.excl 2)).isPanic = true := by
+  refine ⟨by decide, Or.inr ⟨2, 2, by decide, Or.inl ?_⟩, by decide⟩
+  rw [← Str.isCharBoundary_iff]; decide
+
+/-- hence the full "panics iff" statement is false for the order before the fix -/
+theorem splitOff_c09a_target_false : ¬ splitOff_panics_iff_target := by
+  intro ht
+  have h := ht (State.ofBytes (encode ['a', 'é'])) (.incl 2) (.excl 2) ['a', 'é'] (holds_ofBytes _ _)
+  have hw := splitOff_c09a_witness
+  rw [hw.1] at h
+  have := h.2 hw.2.1
+  simp [Res.isPanic] at this
+
+/-- valid UTF-8 in BOTH strings after `split_off`, for both orders, every range, also on a panic
+    (the order before the fix never broke validity: it only failed to panic) -/
+theorem splitOff_valid (f : Bool) (s : State) (sb eb : Bound) (h : WF s) :
+    match splitOff f s sb eb with
+    | .ok o s' => WF o ∧ WF s'
+    | .err s' => WF s'
+    | .panic s' => WF s'
+    | .fault => False := by
+  obtain ⟨cs, hc⟩ := (wf_iff s).1 h
+  rcases rangeBad_or_split cs sb eb s.len with hbad | ⟨a, b, c1, c2, c3, hr, rfl, h1, h2⟩
+  · rcases hbad with hn | ⟨a, b, hr, hp⟩
+    · rw [splitOff_panic_range f s sb eb hn]; exact h
+    · cases f with
+      | true => rw [splitOff_panic_fixed s sb eb a b cs hc hr hp]; exact h
+      | false =>
+        by_cases hne : a = b ∧ a ≠ 0 ∧ b ≠ s.len
+        · obtain ⟨rfl, h0, hl⟩ := hne
+          rw [splitOff_asis_empty s sb eb a hr h0 hl]
+          exact ⟨⟨by simp [WFL], [], rfl⟩, h⟩
+        · rw [splitOff_panic_asis s sb eb a b cs hc hr hp hne]; exact h
+  · obtain ⟨o, s', hs, ho, hs', _⟩ := splitOff_ok f s sb eb a b c1 c2 c3 hc hr h1 h2
+    rw [hs]; exact ⟨ho.wf, hs'.wf⟩
+
+/-- the model switch is on the repaired order -/
+theorem c09a_switch : c09aFixed = true := rfl
+
+/-! ## C strings: text up to the first NUL (or all of it) + exactly one NUL -/
+
+/-- `alloc_cstr_from_str` -/
+theorem alloc_cstr_from_str_eq (src : Bytes) : allocCstrFromStr src = cstrSpec src := allocCstrFromStr_eq src
+
+/-- `alloc_cstr` copies a C string (text without NUL + NUL) unchanged, which is its own `cstrSpec` -/
+theorem alloc_cstr_eq (text : Bytes) (h : text.count 0 = 0) : allocCstr (text ++ [0]) = cstrSpec (text ++ [0]) := by
+  unfold allocCstr cstrSpec
+  have : ∀ l : Bytes, l.count 0 = 0 → (l ++ [0]).takeWhile (· != 0) = l := by
+    intro l hl
+    induction l with
+    | nil => rfl
+    | cons b r ih =>
+      have hb : b ≠ 0 := by
+        intro hb; subst hb; simp at hl
+      have hb' : (b != 0) = true := by simpa using hb
+      have hr : r.count 0 = 0 := by
+        rw [List.count_cons] at hl; simp [hb] at hl; exact hl
+      simp only [List.cons_append, List.takeWhile_cons, hb', ↓reduceIte, ih hr]
+  rw [this text h]
+
+/-- the specified result contains exactly one NUL and ends with it -/
+theorem cstr_one_nul (text : Bytes) : (cstrSpec text).count 0 = 1 ∧ (cstrSpec text).getLast? = some 0 :=
+  ⟨cstrSpec_count text, cstrSpec_getLast text⟩
+
+/-- `into_cstr` of a (growable) string: returns `cstrSpec` of the contents; the boxed string the
+    bytes are taken from holds valid UTF-8 (the characters up to the first NUL character + NUL) -/
+theorem into_cstr_refines (s : State) (cs : List Char) (h : Holds s cs) :
+    ∃ s', intoCstr false s = .ok (cstrSpec s.bytes) s' ∧ Holds s' (cstrText cs) ∧ s'.bytes = cstrSpec s.bytes :=
+  intoCstr_spec s cs h
+
+/-- `alloc_cstr_fmt`: a literal format string goes through `alloc_cstr_from_str`; otherwise the
+    pieces `core::fmt` writes are pushed and `into_cstr` is applied to their concatenation -/
+theorem alloc_cstr_fmt_literal (lit : Bytes) (ps : List Bytes) :
+    ∃ s', allocCstrFmt (some lit) ps = .ok (cstrSpec lit) s' := allocCstrFmt_literal lit ps
+
+theorem alloc_cstr_fmt_pieces (ps : List (List Char)) :
+    ∃ s', allocCstrFmt none (ps.map encode) = .ok (cstrSpec (encode ps.flatten)) s' := allocCstrFmt_pieces ps
+
+example : cstrSpec [0x61, 0x00, 0x62] = [0x61, 0x00] := by decide
+example : allocCstrFromStr (encode ['a', 'é']) = [0x61, 0xC3, 0xA9, 0x00] := by decide
 
 end C09
